@@ -83,6 +83,79 @@ func runC14(c *Ctx) {
 		acqs += flows[f].Acqs
 	}
 	c.R.RequireMin("R14.1", "lock acquisitions in stringclassifier", acqs, 3)
+	// R14.15: a lock that a function takes is given back on every way out of it: behind each Lock/RLock every path to a
+	// return passes the matching Unlock/RUnlock (or the function defers it). A read lock that stays held after an early
+	// return blocks the next AddValue for ever, and with a writer waiting every later reader as well.
+	{
+		nA, bad := 0, ""
+		for _, f := range append(append([]*ssa.Function{}, fns...), pkgFuncs(p, core.RootMod)...) {
+			deferred := map[string]bool{}
+			for _, b := range f.Blocks {
+				for _, in := range b.Instrs {
+					if d, ok := in.(*ssa.Defer); ok {
+						if op, k := eng.MutexOp(f, &d.Call); op == "Unlock" || op == "RUnlock" {
+							deferred[op+" "+k] = true
+						}
+					}
+				}
+			}
+			for _, b := range f.Blocks {
+				for i, in := range b.Instrs {
+					call, ok := in.(*ssa.Call)
+					if !ok {
+						continue
+					}
+					op, k := eng.MutexOp(f, &call.Call)
+					if op != "Lock" && op != "RLock" {
+						continue
+					}
+					nA++
+					rel := "Unlock"
+					if op == "RLock" {
+						rel = "RUnlock"
+					}
+					if deferred[rel+" "+k] {
+						continue
+					}
+					releases := func(x ssa.Instruction) bool {
+						c2, ok := x.(*ssa.Call)
+						if !ok {
+							return false
+						}
+						o2, k2 := eng.MutexOp(f, &c2.Call)
+						return o2 == rel && k2 == k
+					}
+					// forward search for a return that is reached without the release
+					leak := ""
+					seen := map[*ssa.BasicBlock]bool{}
+					var scan func(bb *ssa.BasicBlock, from int)
+					scan = func(bb *ssa.BasicBlock, from int) {
+						for _, x := range bb.Instrs[from:] {
+							if releases(x) {
+								return
+							}
+							if r, isRet := x.(*ssa.Return); isRet {
+								leak = p.Pos(r.Pos())
+								return
+							}
+						}
+						for _, s := range bb.Succs {
+							if !seen[s] && leak == "" {
+								seen[s] = true
+								scan(s, 0)
+							}
+						}
+					}
+					scan(b, i+1)
+					if leak != "" && bad == "" {
+						bad = core.ShortFn(f) + ": " + op + " of " + k + " at " + p.Pos(call.Pos()) + " is still held at the return at " + leak
+					}
+				}
+			}
+		}
+		c.R.Check(bad == "", "R14.15", "a lock that a function takes is released on every way out of it", scPkg, fmt.Sprintf("%d acquisitions: each is followed by its release on every path to a return, or the release is deferred", nA),
+			bad+": the call returns with the lock held - the next AddValue waits for ever, and once a writer waits every later MultipleMatch/NearestMatch blocks behind it")
+	}
 	// R14.8: no mutex is acquired again while it is already held by the same call chain. sync.RWMutex is not reentrant: a
 	// second RLock blocks behind a writer that is waiting for the first one to be released, and that writer never gets
 	// the lock - both calls hang.
